@@ -81,6 +81,8 @@ pub struct World {
     cur: usize,
     pub next_op: u32,
     pub chunk: usize,
+    pub temp_mode: Option<u32>,
+    pub link_from: Option<String>,
     attached: bool,
 }
 
@@ -135,6 +137,8 @@ impl World {
             cur: 0,
             next_op: 1,
             chunk: 8192,
+            temp_mode: None,
+            link_from: None,
             attached: false,
         }
     }
@@ -175,6 +179,8 @@ impl World {
             part: -1,
             scratch: SCRATCH.to_string(),
             chunk: self.chunk,
+            temp_mode: self.temp_mode,
+            link_from: self.link_from.clone(),
         }
     }
 
